@@ -23,6 +23,7 @@ type SpecEnv struct {
 	bound map[string]*Term
 	loop  *Loop
 	frame *Frame
+	atBlock *ssa.BasicBlock
 	inOld bool
 }
 
@@ -267,6 +268,31 @@ func (e *SpecEnv) ident(name string) (Value, error) {
 		var best *ssa.Phi
 		for _, b := range e.frame.fn.Blocks {
 			if !b.Dominates(e.loop.header) || b == e.loop.header {
+				continue
+			}
+			for _, ins := range b.Instrs {
+				phi, ok := ins.(*ssa.Phi)
+				if !ok {
+					break
+				}
+				if phi.Comment == name {
+					if _, ok := e.frame.env[phi]; ok {
+						if best == nil || best.Block().Dominates(b) {
+							best = phi
+						}
+					}
+				}
+			}
+		}
+		if best != nil {
+			return e.frame.env[best], nil
+		}
+	}
+	// at a return: a loop-carried variable of a loop the return is dominated by
+	if e.loop == nil && e.frame != nil && e.atBlock != nil {
+		var best *ssa.Phi
+		for _, b := range e.frame.fn.Blocks {
+			if !b.Dominates(e.atBlock) {
 				continue
 			}
 			for _, ins := range b.Instrs {
@@ -1223,6 +1249,9 @@ func rebuild(op, sortName string, args []*Term) *Term {
 		return Select(args[0], args[1], sortName)
 	case "itoa":
 		return itoaTerm(args[0])
+	}
+	if pd, ok := pureByName[op]; ok && pd.state == 2 && pd.name == op {
+		return pureAppTerm(pd, args)
 	}
 	if _, ok := selToCtor[op]; ok && len(args) == 1 {
 		return Sel(op, args[0])
